@@ -140,7 +140,7 @@ PROPS["C10"] = dict(
 )
 
 PROPS["C19"] = dict(
-    modules=["contracts.heartbeat"],
+    modules=["contracts.heartbeat"], bounded=["bounded.heartbeat_lattice"],
     claim="fail_stale_trials: for every trial the failure callback runs at most once per sweep, and only for a trial "
           "that THIS call moved from an unfinished state to FAIL (its compare-and-set returned True); finished trials "
           "are never touched; ids are collected without duplicates (loop invariants, all iterations). "
@@ -150,7 +150,8 @@ PROPS["C19"] = dict(
     note="storage behind the assumed BaseStorage/heartbeat interface (SQL stale-id query and SQL compare-and-set "
          "assumed); at most one winner per trial across workers follows from the CAS contract plus atomicity",
     assumptions=LIB_ASSUMPTIONS + [
-        "RDBStorage._get_stale_trial_ids returns ids of RUNNING trials with an expired heartbeat (SQL, assumed)",
+        "RDBStorage._get_stale_trial_ids returns ids of RUNNING trials with an expired heartbeat (SQL, assumed; BOUNDED stand-in "
+        "bounded.heartbeat_lattice on sqlite, labelled bounded, not proved)",
         "RDBStorage.set_trial_state_values implements the AS compare-and-set contract (assumed; proved for in-memory)",
         "create_trial / Study.add_trial build and store the trial they are given (assumed contracts)",
         "the failure callback may enqueue trials and raise, but does not change states of existing trials",
@@ -291,7 +292,7 @@ PROPS["C07"] = dict(
 
 PROPS["C07"]["bounded"] = ["bounded.truncate_lattice"]
 PROPS["C05"] = dict(
-    modules=["contracts.journal_file", "contracts.journal"], bounded=["bounded.truncate_lattice"],
+    modules=["contracts.journal_file", "contracts.journal"], bounded=["bounded.truncate_lattice", "bounded.txn_lattice"],
     relevant=lambda pid, c, ob: (c.file.endswith("_file.py") or c.qualname.startswith("JournalStorage.")) and ob["kind"] != "guarded-by",
     claim="Crash points are a universally quantified torn tail: WF admits a final record cut at any byte (no newline). "
           "(L5.1 survival) read_logs on such a file raises nothing, returns every acknowledged record and never the torn one, "
@@ -299,11 +300,13 @@ PROPS["C05"] = dict(
           "such a file yields a WF file whose new records are complete and valid and in which no earlier record changed "
           "(torn tail removed under the lock). (L5.3 write-through) every JournalStorage method returns only after "
           "append_logs returned and the record was replayed (method contracts against the abstract backend).",
-    note="journal file backend only; SQLite/RDB transactions, the stale-lock takeover and fsync durability semantics are not "
-         "covered; _truncate_incomplete_log's byte scan is assumed and bounded-checked",
+    note="journal file backend proved; SQLite/RDB: only a BOUNDED stand-in (bounded.txn_lattice: every mutating RDBStorage call "
+         "writes inside ONE transaction; SQLite's own atomicity assumed); the stale-lock takeover and fsync durability semantics are "
+         "not covered; _truncate_incomplete_log's byte scan is assumed and bounded-checked",
     assumptions=_FILE_ASSUME + ["an interrupted write leaves file ++ p for some prefix p of the bytes being written",
                                 "_truncate_incomplete_log removes exactly a torn tail (assumed; bounded stand-in)"] + _J_ASSUME,
-    not_covered=["SQLite/RDB transactions (storage.py:70-99)", "grace-period takeover of a stale lock (timing)",
+    not_covered=["SQLite/RDB transactions (storage.py:70-99): bounded only (one transaction per call), SQLite atomicity assumed",
+                 "grace-period takeover of a stale lock (timing)",
                  "durability semantics of flush/fsync", "_CachedStorage persistence ordering (pass-through, C08 pending)"],
     witnesses={"JournalFileBackend.append_logs:post/ok/0": "witnesses.f5"},
 )
